@@ -9,6 +9,8 @@ CONSTANTS
     Topos <- MCLoopOnly
     StopKinds <- TaskOnly
     AllowFail = FALSE
+    MaxN = 3
+    MaxE = 4
     InfluxStopF = FALSE
     ReaderDone = TRUE
     AlertCloseOnErr = TRUE
